@@ -249,6 +249,10 @@ func (h *header) decode(src []byte) (int, error) {
 		return total, fmt.Errorf("header/Decode: Remaining length (%d) is greater than remaining buffer (%d)", h.remlen, len(src[total:]))
 	}
 
+	// The decode buffer is the image of this packet only, not of whatever
+	// follows it in src: Len() and Encode() of an unchanged message use it.
+	h.dbuf = src[:total+int(h.remlen)]
+
 	return total, nil
 }
 
